@@ -250,6 +250,11 @@ func (m *Model) Draw(win vaxis.Window) {
 	cursor := col
 	// Make sure we've scrolled enough to have the cursor in the view
 	for widthToCursor(chars, m.cursor, m.offset)+col+scrolloff >= winW {
+		if m.offset >= len(chars) {
+			// everything is scrolled out already: the window is too
+			// narrow for the scroll-off, scrolling further cannot help
+			break
+		}
 		m.offset += 1
 	}
 	// Or we need to scroll toward beginning of line
